@@ -230,8 +230,23 @@ def run_history(impl, L, ops):
         except Exception:
             pass
         atts_before = list(w.m.attackers)
+        dup_expected = None
+        if op[0] == 'add_assoc':
+            # the reference model refuses an association only when it is in the model already or when some pair
+            # (asset of its left field, asset of its right field) is linked, in that orientation, by a live association of its type
+            try:
+                o = w.assocs[op[1]]
+                cls, lf, rf = w.assoc_meta[op[1]]
+                oid = lambda x: getattr(x, 'id', None)
+                dup_expected = any(o is c for c in w.m.associations) or any(
+                    type(c).__name__ == cls and any(oid(x) == oid(l) for x in getattr(c, lf)) and any(oid(y) == oid(r) for y in getattr(c, rf))
+                    for c in w.m.associations for l in getattr(o, lf) for r in getattr(o, rf))
+            except Exception:
+                dup_expected = None
         oc, ret = w.apply(op)
         outs.append([oc, ret])
+        if op[0] == 'add_assoc' and oc == 3 and dup_expected is False:
+            viol.append((i, 'add_association refused as a duplicate an association that is not in the model and none of whose links exists'))
         if op[0] == 'remove_att':
             atts_after = list(w.m.attackers)
             gone = [x for x in atts_before if not any(x is y for y in atts_after)]
@@ -290,6 +305,9 @@ class Gen:
         if r < 0.22:
             t = rng.choice(self.types)
             name = rng.choice(['x', 'y', 'x:1', None, f'n{len(w.assets)}', f'n{len(w.assets)}'])
+            if w.m.assets and rng.random() < 0.12:
+                # exactly the name of a live asset, generated names (x:1, Aa:3) included
+                name = str(rng.choice(w.m.assets).name)
             given = [(d, rng.choice([0.0, 1.0, 0.5])) for d in MG.defenses_of(w.lg, t) if rng.random() < 0.4]
             extras = rng.choice([{}, {}, {'k': 1}, {'flag': True, 'off': False, 'none': None, 'nest': {'b': [True, 'yes', 'no']}}])
             self.do(('new_asset', t, name, given, extras, full_defs(w, t, given)))
